@@ -94,6 +94,21 @@ def foreign_levels(ctx, ex):
                 if tog is None or alone is None or tog != alone:
                     ctx.violation("B:C04:foreign-level:%s:%s:%s" % (lst, entry, with_attr), "a bound(..) on a helper attribute of a co-derived trait changes the where-clause of %s" % main,
                                   {"layer": "B", "item": with_attr, "args": lst, "entry": entry, "plain_item": plain, "where_in_list": tog, "where_alone_on_plain_item": alone})
+    # the shared bound(..) of one list belongs to the entries of THAT list: a later list without one resolves as if it stood alone
+    for first, second, item in [("Clone, bound(T: M1, ..)", "Default", "struct X<T>(Option<T>);"), ("Debug, bound(T: M1)", "Clone, PartialEq", "struct X<T> { a: Vec<T> }"),
+                                ("Clone, bound()", "Debug", "enum X<T> { A(T), B }"), ("PartialEq, bound(T: M1, ..)", "Hash(bound(T: M2, ..))", "struct X<T>(T);")]:
+        for entry in ("attr", "derive"):
+            def wh(lists, only=None):
+                src = " ".join("#[derive_ex(%s)]" % l for l in lists[1:]) + " " + item
+                r = ex.attr(lists[0], src) if entry == "attr" else ex.derive("#[derive_ex(%s)] %s" % (lists[0], src))
+                if r["status"] != "ok" or r.get("items") is None:
+                    return None
+                return [(i.get("trait") or i["canon"][:60], sorted(BF.norm(p) for p in i.get("where", []))) for i in r["items"][(1 if entry == "attr" else 0):] if i["kind"] == "impl"]
+            both, alone = wh([first, second]), wh([second])
+            n += 2
+            if both is None or alone is None or both[-len(alone):] != alone:
+                ctx.violation("B:C04:shared-bound-of-earlier-list:%s|%s:%s:%s" % (first, second, entry, item), "the shared bound(..) of an earlier #[derive_ex(..)] list changes the where-clauses of a later list that has none",
+                              {"layer": "B", "item": item, "lists": [first, second], "entry": entry, "impls_with_both_lists": both, "impls_of_second_list_alone": alone})
     return n
 
 
